@@ -25,7 +25,6 @@ import (
 	"fmt"
 	"os"
 	"path/filepath"
-	"runtime/debug"
 	"strings"
 	"sync"
 	"sync/atomic"
@@ -96,6 +95,18 @@ var (
 )
 
 const c18HNotAdmitting = 2
+
+// c18HPointIdx: the clock / timestamp points a tier enumerates (indices into c18HPoints). Quick: the boundary values;
+// "inside" implies the same verdict as "at-since" for every validity shape and is left to the thorough tier.
+func c18HPointIdx(thorough bool) []int {
+	var out []int
+	for i := range c18HPoints {
+		if thorough || c18HPNames[i] != "inside" {
+			out = append(out, i)
+		}
+	}
+	return out
+}
 
 // c18Rev is one menu entry: the shape of one revision of the signing account-key.
 type c18Rev struct {
@@ -187,7 +198,7 @@ func (fx *c18Fx) histKeyRevision(i int, s c18Rev, types []string) asserts.Assert
 	return a
 }
 
-func (fx *c18Fx) newHistPool(validities int, types []string) *c18HistPool {
+func (fx *c18Fx) newHistPool(validities int, types []string, points []int) *c18HistPool {
 	hp := &c18HistPool{fx: fx}
 	for v := 0; v < validities; v++ {
 		for c := range c18HConstraints {
@@ -202,9 +213,9 @@ func (fx *c18Fx) newHistPool(validities int, types []string) *c18HistPool {
 		hp.revs = append(hp.revs, m)
 	}
 	for _, typ := range types {
-		for ts := range c18HPoints {
+		for n, ts := range points {
 			t, h, body, hasTS := fx.headersFor(typ, c18HPoints[ts])
-			if !hasTS && ts != 0 {
+			if !hasTS && n != 0 {
 				break
 			}
 			signed := fx.sign(t, h, body, c18kHist)
@@ -259,7 +270,7 @@ func (fx *c18Fx) c18OpenOn(bs asserts.Backstore, more []asserts.Assertion) *asse
 	if err != nil {
 		eng.HarnessError("C18 key history: OpenDatabase: %v", err)
 	}
-	for _, l := range [][]asserts.Assertion{fx.stored, more} {
+	for _, l := range [][]asserts.Assertion{fx.histStored(), more} {
 		for _, a := range l {
 			if err := db.Add(a); err != nil {
 				eng.HarnessError("C18 key history: cannot add %s revision %d: %v (a mutation that rejects valid prerequisite assertions cannot be examined)", a.Ref(), a.Revision(), err)
@@ -267,6 +278,21 @@ func (fx *c18Fx) c18OpenOn(bs asserts.Backstore, more []asserts.Assertion) *asse
 		}
 	}
 	return db
+}
+
+// histStored: the prerequisites of the candidates of part 3 (account dev1, snap-declaration foo). The other account-keys
+// of the fixture are left out: every Add of an account-key searches and decodes all stored account-keys.
+func (fx *c18Fx) histStored() []asserts.Assertion {
+	var out []asserts.Assertion
+	for _, a := range fx.stored {
+		if (a.Type() == asserts.AccountType && a.HeaderString("account-id") == "dev1") || a.Type() == asserts.SnapDeclarationType {
+			out = append(out, a)
+		}
+	}
+	if len(out) != 2 {
+		eng.HarnessError("C18 key history: fixture prerequisites not found")
+	}
+	return out
 }
 
 func c18OpenFS(dir string) asserts.Backstore {
@@ -442,12 +468,12 @@ func c18HistTypes(thorough bool) []string {
 // c18RunHistories is part 3. It returns the counters; overReject collects cases the reference accepts and the code refuses.
 func c18RunHistories(r *eng.Run, fx *c18Fx, overReject *[]string) *c18HistStats {
 	st := &c18HistStats{}
-	defer debug.SetGCPercent(debug.SetGCPercent(400)) // decoding account-keys is allocation heavy
 	validities := 3
 	if r.Thorough() {
 		validities = len(c18HValidity)
 	}
-	hp := fx.newHistPool(validities, c18HistTypes(r.Thorough()))
+	points := c18HPointIdx(r.Thorough())
+	hp := fx.newHistPool(validities, c18HistTypes(r.Thorough()), points)
 	hists := hp.histories(len(c18HRevNo))
 	root := filepath.Join(eng.WorkDir(), fmt.Sprintf("c18-keyhist-%d", os.Getpid()))
 	os.RemoveAll(root)
@@ -475,8 +501,10 @@ func c18RunHistories(r *eng.Run, fx *c18Fx, overReject *[]string) *c18HistStats 
 			flat = append(flat, b...)
 		}
 		nvariants += int64(len(flat))
-		for clock := range c18HPoints {
+		for _, clock := range points {
+			clock := clock
 			for _, earliest := range []bool{false, true} {
+				earliest := earliest
 				// earliest-time mode: the system clock holds a decoy that must not be consulted
 				t := c18HPoints[clock]
 				if earliest {
@@ -507,14 +535,14 @@ func c18RunHistories(r *eng.Run, fx *c18Fx, overReject *[]string) *c18HistStats 
 		r.Add("history_violating_cases", st.violating)
 	}
 	r.Info("key_history_bounds", map[string]int{"revision_shapes": len(hp.shapes), "max_revisions": len(c18HRevNo), "backstore_kinds": len(c18HBackstores), "placements": 2,
-		"clock_points": len(c18HPoints), "modes": 2, "candidates": len(hp.cands), "types": len(c18HistTypes(r.Thorough()))})
+		"clock_points": len(points), "timestamp_points": len(points), "modes": 2, "candidates": len(hp.cands), "types": len(c18HistTypes(r.Thorough()))})
 	return st
 }
 
 // c18ReplayHistory rebuilds the one database of a part 3 case and runs the case.
 func c18ReplayHistory(r *eng.Run, c c18HistCase, full c18Case) {
 	fx := c18NewFixture()
-	hp := fx.newHistPool(len(c18HValidity), []string{c.Type})
+	hp := fx.newHistPool(len(c18HValidity), []string{c.Type}, c18HPointIdx(true))
 	root := filepath.Join(eng.WorkDir(), fmt.Sprintf("c18-keyhist-replay-%d", os.Getpid()))
 	os.RemoveAll(root)
 	defer os.RemoveAll(root)
